@@ -345,3 +345,18 @@ crate::test::all_digit_tests! {
 }
 
 crate::macro_impl!(overflowing);
+
+// Verification hooks: thin public wrappers around internal functions, compiled only with `--cfg bnum_verif`.
+#[cfg(bnum_verif)]
+macro_rules! verif_hooks {
+    ($BUint: ident, $BInt: ident, $Digit: ident) => {
+        impl<const N: usize> $BInt<N> {
+            pub fn verif_div_rem_unchecked(self, rhs: Self) -> (Self, Self) {
+                self.div_rem_unchecked(rhs)
+            }
+        }
+    };
+}
+
+#[cfg(bnum_verif)]
+crate::macro_impl!(verif_hooks);
